@@ -206,6 +206,22 @@ func runC19(c *Ctx) {
 		for _, in := range clears {
 			cut.AddInstr(in)
 		}
+		// a helper of the iterator that takes the pending key and clears it
+		for _, b := range f.Blocks {
+			for _, in := range b.Instrs {
+				if cl, ok := in.(*ssa.Call); ok {
+					if h := cl.Call.StaticCallee(); h != nil && h.Pkg == f.Pkg && h != f && len(h.Blocks) > 0 && len(h.Blocks) <= 12 {
+						for _, hb := range h.Blocks {
+							for _, hin := range hb.Instrs {
+								if st, ok := hin.(*ssa.Store); ok && isSeekKey(st.Addr) && ssau.IsNilConst(st.Val) {
+									cut.AddInstr(cl)
+								}
+							}
+						}
+					}
+				}
+			}
+		}
 		// the seek calls that take the pending key (an argument loaded from seekKey)
 		n, bad := 0, ""
 		r := ssau.ReachFromEntry(f, cut)
